@@ -774,3 +774,19 @@ c.modifies("self._max_workers", "self._context", "self._env", "self._initializer
            "self._call_queue", "self._result_queue", f"glob:{PE}._system_limits_checked", f"glob:{PE}._system_limited",
            "glob:loky.backend.context.physical_cores_cache")
 c.cover("default-size", "is_none(max_workers)")
+
+c = M.contract("_CallItem.__init__", props=["C15", "C03"])
+c.param("self", T.Ref("_CallItem")).param("work_id", T.Int).param("fn", T.Obj).param("args", T.Obj).param("kwargs", T.Obj)
+c.ensures("callitem/carries-the-task-and-the-pickler-in-force",
+          "self.work_id == work_id and self.fn is fn and self.args is args and self.kwargs is kwargs and "
+          "log_count('call:get_loky_pickler_name') == 1 and self.loky_pickler == log_arg('call:get_loky_pickler_name', 0, 0)")
+c.raises_only("callitem/no-exception")
+c.modifies("self.work_id", "self.fn", "self.args", "self.kwargs", "self.loky_pickler")
+
+c = S.contracts[f"{PE}:_CallItem.__call__"]
+c.ensures("callitem/selects-the-submitters-pickler-before-running-the-task",
+          "log_count('call:set_loky_pickler') == 1 and log_arg('call:set_loky_pickler', 0, 1) == self.loky_pickler and "
+          "log_before('call:set_loky_pickler', 'user_call')", prop="C15")
+c.ensures("callitem/runs-the-task-with-its-own-arguments",
+          "log_count('user_call') == 1 and log_arg('user_call', 0, 0) is self.fn and result is app_call(self.fn, self.args, self.kwargs)", prop="C03")
+c.raises("callitem/task-or-pickler-errors-propagate", "BaseException")
